@@ -1,18 +1,1002 @@
-//! C11 — not built yet (stub).
+//! C11 — lazy loading is equivalent to eager loading for every access pattern (engine E2 + validator P).
+//!
+//! One node = a lazily opened workbook + its eagerly opened twin (same bytes), both real library objects,
+//! stepped through the same history.  The explorer enumerates ALL histories over the alphabet below to the
+//! stated depth; one pool case = (initial file, first operation).  `save` is an operation: it is evaluated
+//! on every expanded state and its successor is the saved book (a save may change shared tables).
+//! Because `Spreadsheet::clone` shares the shared-string table (an Arc) and a save writes to it, a save is
+//! never executed on an object that other nodes were cloned from: the node's history is replayed on fresh
+//! objects first (the replay must reproduce the node's key, otherwise the run reports a harness failure).
 use crate::common::*;
+use crate::dump::*;
+use crate::e1::*;
+use crate::e2::{self, Machine};
 use crate::pool::*;
-use serde_json::Value;
+use crate::pyref::with_py;
+use crate::wbuild::*;
+use serde_json::{json, Value};
+use std::collections::{BTreeMap, BTreeSet};
+use std::io::Read;
+use std::sync::{Arc, OnceLock};
+use umya_spreadsheet::*;
 
 pub fn entry() -> crate::Entry {
     crate::Entry { id: "C11", run, space, replay }
 }
-pub fn space(_tier: Tier, _id: &str) -> Option<Box<dyn Space>> {
+
+// =================================================================================================
+// initial files
+
+const F_STYLES: u16 = 1;
+const F_EXT: u16 = 2;
+const F_INT: u16 = 4;
+const F_COMMENTS: u16 = 8;
+const F_MERGES: u16 = 16;
+const F_VALID: u16 = 32;
+const F_COND: u16 = 64;
+const F_TABLE: u16 = 128;
+const F_ALL: u16 = 255;
+const FEATURE_NAMES: [&str; 8] = ["styles", "ext-links", "int-links", "comments", "merges", "validations", "cond-formats", "table"];
+
+/// (name, per-sheet feature masks, defined names on first and last sheet)
+const GEN: [(&str, &[u16], bool); 12] = [
+    ("plain3", &[0, 0, 0], false),
+    ("styles3", &[F_STYLES, F_STYLES, F_STYLES], false),
+    ("comments-first3", &[F_COMMENTS, 0, 0], false),
+    ("comments-last3", &[0, 0, F_COMMENTS], false),
+    ("links3", &[F_EXT | F_INT, F_EXT, F_EXT | F_INT], false),
+    ("tables3", &[F_TABLE, F_TABLE, 0], false),
+    ("mixed3", &[F_COMMENTS | F_EXT, F_TABLE | F_STYLES, F_MERGES | F_VALID | F_COND], false),
+    ("all3", &[F_ALL, F_ALL, F_ALL], true),
+    ("sparse4", &[0, F_COMMENTS, 0, F_EXT], false),
+    ("styled4", &[F_STYLES | F_COMMENTS, F_STYLES | F_EXT, F_STYLES | F_TABLE, F_STYLES | F_MERGES | F_VALID | F_COND], false),
+    ("all4", &[F_ALL, F_ALL, F_ALL, F_ALL], true),
+    ("tail4", &[F_TABLE, F_COMMENTS | F_STYLES, F_EXT | F_INT, 0], false),
+];
+
+const SHEET_NAMES: [&str; 4] = ["Sheet1", "Data 2", "Third", "Fourth & last"];
+
+fn build_gen(k: usize) -> Spreadsheet {
+    let (_, masks, names) = GEN[k];
+    let mut b = new_file();
+    for i in 1..masks.len() {
+        b.new_sheet(SHEET_NAMES[i]).unwrap();
+    }
+    for (i, m) in masks.iter().enumerate() {
+        let ws = b.get_sheet_mut(&i).unwrap();
+        add_base_cells(ws, &format!("s{}", i + 1));
+        if m & F_STYLES != 0 {
+            add_styles(ws);
+        }
+        if m & F_EXT != 0 {
+            add_ext_links(ws, 2 + i as u32, &|j| format!("https://example.com/s{}/page{}?x={}", i + 1, j, j * 7));
+        }
+        if m & F_INT != 0 {
+            add_int_links(ws, 2, &|j| format!("Sheet1!B{}", j + i as u32));
+        }
+        if m & F_COMMENTS != 0 {
+            add_comments(ws, 1 + (i as u32 % 2), &|j| if j % 2 == 0 { "Author A".into() } else { "Author B".into() }, &|j| format!("comment {} on sheet {}", j, i + 1));
+        }
+        if m & F_MERGES != 0 {
+            add_merges(ws, 2);
+        }
+        if m & F_VALID != 0 {
+            add_validations(ws, 2, &format!("pick one on {}", i + 1), "\"a,b,c\"");
+        }
+        if m & F_COND != 0 {
+            add_cond_formats(ws, 2, &format!("{}", 20 + i));
+        }
+        if m & F_TABLE != 0 {
+            add_table(ws, &format!("Table{}", i + 1), ["Col A", "Col B"]);
+        }
+    }
+    if names {
+        add_defined_names(&mut b, 0, "GlobalOne", "LocalOne");
+        add_defined_names(&mut b, masks.len() - 1, "GlobalTwo", "LocalTwo");
+    }
+    b
+}
+
+/// What the ORIGINAL file says about one sheet (independent reading: zip + quick-xml).
+#[derive(Clone, Debug)]
+pub struct PartInfo {
+    pub name: String,
+    pub part: String,
+    /// N of xl/worksheets/sheetN.xml
+    pub part_no: Option<u32>,
+    /// the part has a relationship part with at least one relationship
+    pub has_rels: bool,
+}
+
+fn zip_read(z: &mut zip::ZipArchive<std::io::Cursor<&[u8]>>, name: &str) -> Option<Vec<u8>> {
+    let mut f = z.by_name(name).ok()?;
+    let mut v = vec![];
+    f.read_to_end(&mut v).ok()?;
+    Some(v)
+}
+fn xattr(e: &quick_xml::events::BytesStart, key: &[u8]) -> Option<String> {
+    for a in e.attributes().with_checks(false).flatten() {
+        if a.key.as_ref() == key {
+            return a.unescape_value().ok().map(|c| c.to_string());
+        }
+    }
     None
 }
-fn replay(_tier: Tier, _case: &Value) -> Vec<Violation> {
-    vec![]
+fn elements(xml: &[u8], local: &[u8]) -> Vec<quick_xml::events::BytesStart<'static>> {
+    let mut rd = quick_xml::Reader::from_reader(xml);
+    let mut out = vec![];
+    loop {
+        match rd.read_event() {
+            Ok(quick_xml::events::Event::Eof) | Err(_) => break,
+            Ok(quick_xml::events::Event::Start(e)) | Ok(quick_xml::events::Event::Empty(e)) => {
+                if e.local_name().as_ref() == local {
+                    out.push(e.into_owned());
+                }
+            }
+            _ => {}
+        }
+    }
+    out
 }
-fn run(_ctx: &Ctx) -> i32 {
-    eprintln!("MACHINERY: C11 is not built yet");
-    2
+pub fn sheet_parts(bytes: &[u8]) -> Vec<PartInfo> {
+    let mut out = vec![];
+    let mut z = match zip::ZipArchive::new(std::io::Cursor::new(bytes)) {
+        Ok(z) => z,
+        Err(_) => return out,
+    };
+    let wb = zip_read(&mut z, "xl/workbook.xml").unwrap_or_default();
+    let rels = zip_read(&mut z, "xl/_rels/workbook.xml.rels").unwrap_or_default();
+    let mut target: BTreeMap<String, String> = BTreeMap::new();
+    for e in elements(&rels, b"Relationship") {
+        if let (Some(id), Some(t)) = (xattr(&e, b"Id"), xattr(&e, b"Target")) {
+            target.insert(id, t);
+        }
+    }
+    for e in elements(&wb, b"sheet") {
+        let name = xattr(&e, b"name").unwrap_or_default();
+        let rid = xattr(&e, b"r:id").unwrap_or_default();
+        let t = target.get(&rid).cloned().unwrap_or_default();
+        let part = if let Some(abs) = t.strip_prefix('/') { abs.to_string() } else { format!("xl/{}", t) };
+        let file = part.rsplit('/').next().unwrap_or("").to_string();
+        let dir = part[..part.len() - file.len()].to_string();
+        let part_no = file.strip_prefix("sheet").and_then(|r| r.strip_suffix(".xml")).and_then(|d| d.parse::<u32>().ok());
+        let rel_name = format!("{}_rels/{}.rels", dir, file);
+        let has_rels = zip_read(&mut z, &rel_name).map(|x| !elements(&x, b"Relationship").is_empty()).unwrap_or(false);
+        out.push(PartInfo { name, part, part_no, has_rels });
+    }
+    out
+}
+
+pub struct Init {
+    pub name: String,
+    pub bytes: Arc<Vec<u8>>,
+    pub parts: Vec<PartInfo>,
+    pub tags: Vec<String>,
+    pub nsheets: usize,
+}
+
+fn gen_inits() -> Vec<Init> {
+    let mut v = vec![];
+    for k in 0..GEN.len() {
+        let b = build_gen(k);
+        let bytes = save_bytes(&b, false).unwrap_or_else(|e| {
+            eprintln!("MACHINERY: C11 cannot save generated workbook {}: {}", GEN[k].0, e);
+            std::process::exit(2);
+        });
+        let parts = sheet_parts(&bytes);
+        let n = GEN[k].1.len();
+        if parts.len() != n {
+            eprintln!("MACHINERY: C11 generated workbook {} has {} sheet parts, expected {}", GEN[k].0, parts.len(), n);
+            std::process::exit(2);
+        }
+        let mut tags = vec!["gen".to_string(), format!("gen:{}", GEN[k].0), format!("sheets:{}", n)];
+        let union = GEN[k].1.iter().fold(0u16, |a, m| a | m);
+        for (i, f) in FEATURE_NAMES.iter().enumerate() {
+            if union & (1 << i) != 0 {
+                tags.push(format!("file-has:{}", f));
+            }
+        }
+        v.push(Init { name: format!("gen:{}", GEN[k].0), bytes: Arc::new(bytes), parts, tags, nsheets: n });
+    }
+    v
+}
+
+/// Multi-sheet corpus files that both readers accept, smallest first.
+fn corpus_inits(max: usize, max_bytes: u64) -> Vec<Init> {
+    let mut files: Vec<(u64, String)> = crate::c02::corpus_files().into_iter().map(|p| (std::fs::metadata(&p).map(|m| m.len()).unwrap_or(0), p)).collect();
+    files.sort();
+    let mut v = vec![];
+    for (len, p) in files {
+        if v.len() >= max || len > max_bytes {
+            continue;
+        }
+        let bytes = match std::fs::read(&p) {
+            Ok(b) => b,
+            Err(_) => continue,
+        };
+        let parts = sheet_parts(&bytes);
+        if parts.len() < 2 {
+            continue;
+        }
+        // a corpus file the library cannot read at all is C03's business
+        let lazy = match load_bytes(&bytes, false) {
+            Ok(b) => b,
+            Err(_) => continue,
+        };
+        if load_bytes(&bytes, true).is_err() {
+            continue;
+        }
+        let n = lazy.get_sheet_count();
+        if n != parts.len() {
+            continue;
+        }
+        let file = p.rsplit('/').next().unwrap_or("").to_string();
+        let mut tags = vec!["corpus".to_string(), format!("corpus:{}", file), format!("sheets:{}", n.min(9))];
+        if parts.iter().enumerate().any(|(i, q)| q.part_no != Some(i as u32 + 1)) {
+            tags.push("orig-part-numbering-irregular".into());
+        }
+        v.push(Init { name: format!("corpus:{}", file), bytes: Arc::new(bytes), parts, tags, nsheets: n });
+    }
+    v
+}
+
+fn inits_for(id: &str) -> &'static Vec<Init> {
+    static GENS: OnceLock<Vec<Init>> = OnceLock::new();
+    static CORPUS_Q: OnceLock<Vec<Init>> = OnceLock::new();
+    static CORPUS_T: OnceLock<Vec<Init>> = OnceLock::new();
+    static CORPUS_BIG: OnceLock<Vec<Init>> = OnceLock::new();
+    match id {
+        "gen" => GENS.get_or_init(gen_inits),
+        "corpus-small" => CORPUS_Q.get_or_init(|| corpus_inits(6, 100_000)),
+        "corpus" => CORPUS_T.get_or_init(|| corpus_inits(usize::MAX, 300_000)),
+        _ => CORPUS_BIG.get_or_init(|| corpus_inits(usize::MAX, u64::MAX).into_iter().filter(|i| i.bytes.len() > 300_000).collect()),
+    }
+}
+
+// =================================================================================================
+// alphabet
+
+#[derive(Clone, Debug, PartialEq)]
+pub enum Op {
+    Read(usize),
+    ReadAll,
+    MutText(usize),
+    NameNum(usize),
+    Rename(usize),
+    WbInsert(usize),
+    New,
+    Remove(usize),
+    Save,
+}
+impl Op {
+    fn to_json(&self) -> Value {
+        match self {
+            Op::Read(i) => json!({"op": "read_sheet", "i": i}),
+            Op::ReadAll => json!({"op": "read_sheet_collection"}),
+            Op::MutText(i) => json!({"op": "get_sheet_mut+set_text", "i": i, "cell": "A2", "text": EDIT_TEXT}),
+            Op::NameNum(i) => json!({"op": "get_sheet_by_name_mut+set_number_styled", "i": i, "cell": "C3", "number": 42.5}),
+            Op::Rename(i) => json!({"op": "set_sheet_name", "i": i}),
+            Op::WbInsert(i) => json!({"op": "insert_new_row(name_of(i),1,1)", "i": i}),
+            Op::New => json!({"op": "new_sheet+cell"}),
+            Op::Remove(i) => json!({"op": "remove_sheet", "i": i}),
+            Op::Save => json!({"op": "save"}),
+        }
+    }
+    fn name(&self) -> &'static str {
+        match self {
+            Op::Read(_) => "read_sheet",
+            Op::ReadAll => "read_sheet_collection",
+            Op::MutText(_) => "get_sheet_mut",
+            Op::NameNum(_) => "get_sheet_by_name_mut",
+            Op::Rename(_) => "set_sheet_name",
+            Op::WbInsert(_) => "wb_insert_new_row",
+            Op::New => "new_sheet",
+            Op::Remove(_) => "remove_sheet",
+            Op::Save => "save",
+        }
+    }
+}
+const EDIT_TEXT: &str = "lazy edit <&> text";
+const NEW_TEXT: &str = "text of a new sheet";
+const MAX_SHEETS: usize = 6;
+
+fn ops_for(n: usize) -> Vec<Op> {
+    let mut v = vec![];
+    for i in 0..n {
+        v.push(Op::Read(i));
+    }
+    v.push(Op::ReadAll);
+    for i in 0..n {
+        v.push(Op::MutText(i));
+    }
+    for i in 0..n {
+        v.push(Op::NameNum(i));
+    }
+    for i in 0..n {
+        v.push(Op::Rename(i));
+    }
+    for i in 0..n {
+        v.push(Op::WbInsert(i));
+    }
+    if n < MAX_SHEETS {
+        v.push(Op::New);
+    }
+    if n >= 2 {
+        for i in 0..n {
+            v.push(Op::Remove(i));
+        }
+    }
+    v.push(Op::Save);
+    v
+}
+
+fn edit_style() -> Style {
+    let mut s = Style::default();
+    s.get_font_mut().set_italic(true);
+    s.get_numbering_format_mut().set_format_code("0.000");
+    s
+}
+
+fn sheet_names(b: &Spreadsheet) -> Vec<String> {
+    b.get_sheet_collection_no_check().iter().map(|w| w.get_name().to_string()).collect()
+}
+fn fresh_name(b: &Spreadsheet, stem: &str) -> String {
+    let names = sheet_names(b);
+    let mut k = 1;
+    loop {
+        let c = format!("{}{}", stem, k);
+        if !names.iter().any(|n| *n == c) {
+            return c;
+        }
+        k += 1;
+    }
+}
+
+/// Apply one non-save operation through the public API.  The returned string is the call's own outcome
+/// (Ok/Err text), compared between the lazy book and the twin.
+fn apply(b: &mut Spreadsheet, op: &Op) -> String {
+    match op {
+        Op::Read(i) => {
+            b.read_sheet(*i);
+            "ok".into()
+        }
+        Op::ReadAll => {
+            b.read_sheet_collection();
+            "ok".into()
+        }
+        Op::MutText(i) => match b.get_sheet_mut(i) {
+            Some(ws) => {
+                ws.get_cell_mut("A2").set_value_string(EDIT_TEXT);
+                "ok".into()
+            }
+            None => "none".into(),
+        },
+        Op::NameNum(i) => {
+            let name = sheet_names(b)[*i].clone();
+            match b.get_sheet_by_name_mut(&name) {
+                Some(ws) => {
+                    let c = ws.get_cell_mut("C3");
+                    c.set_value_number(42.5);
+                    c.set_style(edit_style());
+                    "ok".into()
+                }
+                None => "none".into(),
+            }
+        }
+        Op::Rename(i) => {
+            let n = fresh_name(b, "Ren ");
+            match b.set_sheet_name(*i, n) {
+                Ok(()) => "ok".into(),
+                Err(e) => format!("err:{}", e),
+            }
+        }
+        Op::WbInsert(i) => {
+            let name = sheet_names(b)[*i].clone();
+            b.insert_new_row(&name, &1, &1);
+            "ok".into()
+        }
+        Op::New => {
+            let n = fresh_name(b, "New");
+            match b.new_sheet(n) {
+                Ok(ws) => {
+                    ws.get_cell_mut("A1").set_value_string(NEW_TEXT);
+                    ws.get_cell_mut("B2").set_value_number(7);
+                    "ok".into()
+                }
+                Err(e) => format!("err:{}", e),
+            }
+        }
+        Op::Remove(i) => match b.remove_sheet(*i) {
+            Ok(()) => "ok".into(),
+            Err(e) => format!("err:{}", e),
+        },
+        Op::Save => "ok".into(),
+    }
+}
+
+fn guarded<T>(f: impl FnOnce() -> T) -> Result<T, String> {
+    std::panic::catch_unwind(std::panic::AssertUnwindSafe(f)).map_err(|e| panic_msg(&e))
+}
+
+/// Public way to learn whether sheet `i` is materialised: `get_sheet(&i)` is documented to assert on an
+/// unloaded sheet.
+fn is_materialised(b: &Spreadsheet, i: usize) -> bool {
+    matches!(guarded(|| b.get_sheet(&i).is_some()), Ok(true))
+}
+
+// =================================================================================================
+// reference model (bookkeeping of the history shape; the content oracle is the eager twin)
+
+#[derive(Clone, Debug, PartialEq)]
+struct MSheet {
+    /// index in the original file (None: created by new_sheet)
+    orig: Option<usize>,
+    /// an accessor that is documented to materialise was called on it
+    expect_mat: bool,
+    renamed_while_unloaded: bool,
+    edited: bool,
+}
+
+#[derive(Clone)]
+pub struct St {
+    lazy: Spreadsheet,
+    twin: Spreadsheet,
+    hist: Vec<Op>,
+    model: Vec<MSheet>,
+    removed: Vec<usize>,
+    wb_insert: bool,
+    saves: u32,
+    save_sig: u64,
+    key: u128,
+    /// per current sheet: materialised in the lazy book (observed)
+    mat: Vec<bool>,
+}
+
+fn diff_symptom(path: &str, left: &str, right: &str) -> String {
+    let mut segs = vec![];
+    for seg in path.split('/').filter(|s| !s.is_empty()).take(4) {
+        let digits = seg.chars().filter(|c| c.is_ascii_digit()).count();
+        let mut s: String = if digits >= 5 { "*".to_string() } else { seg.chars().map(|c| if c.is_ascii_digit() { '#' } else { c }).collect() };
+        while s.contains("##") {
+            s = s.replace("##", "#");
+        }
+        segs.push(s);
+    }
+    let kind = if left == "<absent>" {
+        ":missing-in-lazy"
+    } else if right == "<absent>" {
+        ":extra-in-lazy"
+    } else {
+        ""
+    };
+    format!("/{}{}", segs.join("/"), kind)
+}
+
+fn part_family(p: &str) -> String {
+    let mut s: String = p.chars().map(|c| if c.is_ascii_digit() { '#' } else { c }).collect();
+    while s.contains("##") {
+        s = s.replace("##", "#");
+    }
+    s
+}
+
+pub struct C11Machine<'a> {
+    init: &'a Init,
+    depth: usize,
+    counters: std::cell::RefCell<BTreeMap<String, u64>>,
+    obs: std::cell::RefCell<Vec<u64>>,
+}
+
+impl<'a> C11Machine<'a> {
+    fn new(init: &'a Init, depth: usize) -> Self {
+        C11Machine { init, depth, counters: Default::default(), obs: Default::default() }
+    }
+    fn count(&self, k: &str) {
+        *self.counters.borrow_mut().entry(k.to_string()).or_insert(0) += 1;
+    }
+
+    fn fresh(&self) -> Result<(Spreadsheet, Spreadsheet), String> {
+        let lazy = load_bytes(&self.init.bytes, false)?;
+        let twin = load_bytes(&self.init.bytes, true)?;
+        Ok((lazy, twin))
+    }
+
+    fn init_state(&self) -> Result<St, String> {
+        let (lazy, twin) = self.fresh()?;
+        let n = lazy.get_sheet_count();
+        let model = (0..n).map(|i| MSheet { orig: Some(i), expect_mat: false, renamed_while_unloaded: false, edited: false }).collect();
+        let mut s = St { lazy, twin, hist: vec![], model, removed: vec![], wb_insert: false, saves: 0, save_sig: 0, key: 0, mat: vec![] };
+        self.observe(&mut s, &mut vec![], &[]);
+        Ok(s)
+    }
+
+    /// Tags describing the shape of the history that led to `s` (all derived from state that is part of the key).
+    fn shape_tags(&self, s: &St) -> Vec<String> {
+        let mut t: BTreeSet<String> = BTreeSet::new();
+        let n = s.model.len();
+        let unloaded: Vec<usize> = (0..n).filter(|i| !s.mat.get(*i).copied().unwrap_or(true)).collect();
+        if unloaded.is_empty() {
+            t.insert("all-materialised".into());
+        } else if unloaded.len() == n {
+            t.insert("none-materialised".into());
+            t.insert("some-unloaded".into());
+        } else {
+            t.insert("some-unloaded".into());
+            t.insert("mixed-materialised-unloaded".into());
+        }
+        let part_no = |i: usize| s.model[i].orig.and_then(|o| self.init.parts.get(o)).and_then(|p| p.part_no);
+        let has_rels = |i: usize| s.model[i].orig.and_then(|o| self.init.parts.get(o)).map(|p| p.has_rels).unwrap_or(false);
+        let mut renumbered = false;
+        for &i in &unloaded {
+            if part_no(i) != Some(i as u32 + 1) {
+                renumbered = true;
+                t.insert("unloaded-sheet-renumbered".into());
+                t.insert(if has_rels(i) { "unloaded-renumbered-sheet-has-rels" } else { "unloaded-renumbered-sheet-no-rels" }.into());
+                if let Some(o) = s.model[i].orig {
+                    if s.removed.iter().any(|r| *r < o) {
+                        t.insert("removed-before-unloaded".into());
+                    }
+                }
+            }
+            if s.model[i].renamed_while_unloaded {
+                t.insert("renamed-while-unloaded".into());
+            }
+            // another sheet now sits at the position whose part name this unloaded sheet's relationship part keeps
+            if let Some(pn) = part_no(i) {
+                let pos = pn as usize - 1;
+                if pos != i && pos < n && has_rels(i) {
+                    t.insert("unloaded-rels-name-taken-by-other-sheet".into());
+                }
+            }
+        }
+        if !renumbered && !unloaded.is_empty() {
+            t.insert("unloaded-sheets-keep-their-number".into());
+        }
+        if !s.removed.is_empty() {
+            t.insert("removed-sheet".into());
+        }
+        if s.model.iter().any(|m| m.orig.is_none()) {
+            t.insert("new-sheet".into());
+            if !unloaded.is_empty() {
+                t.insert("new-sheet-while-unloaded".into());
+            }
+        }
+        if s.hist.iter().any(|o| matches!(o, Op::Rename(_))) {
+            t.insert("renamed".into());
+        }
+        if s.model.iter().any(|m| m.edited) {
+            t.insert("edited".into());
+        }
+        if s.wb_insert {
+            t.insert("wb-insert".into());
+        }
+        if s.saves > 0 {
+            t.insert("resaved".into());
+        }
+        if s.removed.is_empty() && !s.model.iter().any(|m| m.orig.is_none()) {
+            t.insert("no-add-no-remove".into());
+        }
+        let mut v: Vec<String> = self.init.tags.clone();
+        v.extend(t);
+        v
+    }
+
+    fn viol(&self, s: &St, clause: &str, symptom: &str, extra: &[String], detail: String) -> Violation {
+        let mut tags = self.shape_tags(s);
+        tags.extend(extra.iter().cloned());
+        Violation { clause: clause.into(), symptom: symptom.into(), tags, case: Value::Null, detail }
+    }
+
+    /// Observe the state: materialisation flags, clause sheet-list, clause materialised-equals-eager,
+    /// clause materialised-on-access; computes the state key.
+    fn observe(&self, s: &mut St, out: &mut Vec<Violation>, touched: &[usize]) {
+        let ln = sheet_names(&s.lazy);
+        let tn = sheet_names(&s.twin);
+        s.mat = (0..ln.len()).map(|i| is_materialised(&s.lazy, i)).collect();
+        if ln != tn {
+            let sym = if ln.len() != tn.len() { "sheet-count" } else { "sheet-name-or-order" };
+            out.push(self.viol(s, "sheet-list", sym, &[], format!("lazy sheets {:?}, eager twin sheets {:?}", ln, tn)));
+        }
+        let mut keyparts: Vec<Value> = vec![];
+        let lsheets = s.lazy.get_sheet_collection_no_check();
+        let tsheets = s.twin.get_sheet_collection_no_check();
+        for i in 0..ln.len() {
+            let tp = tsheets.get(i).map(|w| sheet_p(w, Opts::FULL)).unwrap_or(Value::Null);
+            if s.mat[i] {
+                let lp = sheet_p(&lsheets[i], Opts::FULL);
+                if let Some((path, l, r)) = first_diff(&lp, &tp) {
+                    let sym = diff_symptom(&path, &l, &r);
+                    out.push(self.viol(s, "materialised-equals-eager", &sym, &[], format!("sheet {} ({:?}) of the lazy book differs from the eager twin at {}: lazy {} / eager {}", i, ln[i], path, l, r)));
+                    keyparts.push(lp);
+                }
+            } else if s.model.get(i).map(|m| m.expect_mat).unwrap_or(false) || touched.contains(&i) {
+                out.push(self.viol(s, "materialised-on-access", "still-unloaded", &[], format!("sheet {} ({:?}) is still unloaded after a materialising accessor", i, ln[i])));
+            }
+            keyparts.push(json!({"mat": s.mat[i], "twin": tp}));
+        }
+        let model: Vec<Value> = s.model.iter().map(|m| json!([m.orig, m.expect_mat, m.renamed_while_unloaded, m.edited])).collect();
+        let k = json!({"names": ln, "sheets": keyparts, "model": model, "removed": s.removed, "wbins": s.wb_insert, "saves": s.saves, "save_sig": s.save_sig,
+            "active": s.lazy.get_workbook_view().get_active_tab()});
+        s.key = e2::key_of(&k.to_string());
+    }
+
+    fn update_model(&self, s: &mut St, op: &Op, mat_before: &[bool]) -> Vec<usize> {
+        let mut touched = vec![];
+        match op {
+            Op::Read(i) => {
+                s.model[*i].expect_mat = true;
+                touched.push(*i);
+            }
+            Op::ReadAll => {
+                for m in s.model.iter_mut() {
+                    m.expect_mat = true;
+                }
+            }
+            Op::MutText(i) | Op::NameNum(i) => {
+                s.model[*i].expect_mat = true;
+                s.model[*i].edited = true;
+                touched.push(*i);
+            }
+            Op::Rename(i) => {
+                if !mat_before[*i] {
+                    s.model[*i].renamed_while_unloaded = true;
+                }
+            }
+            Op::WbInsert(_) => {
+                s.wb_insert = true;
+                for m in s.model.iter_mut() {
+                    m.edited = true;
+                }
+            }
+            Op::New => s.model.push(MSheet { orig: None, expect_mat: true, renamed_while_unloaded: false, edited: true }),
+            Op::Remove(i) => {
+                let m = s.model.remove(*i);
+                s.removed.push(m.orig.unwrap_or(usize::MAX - 1));
+            }
+            Op::Save => {}
+        }
+        touched
+    }
+
+    /// One non-save step on (lazy, twin) with the oracle.
+    fn step_plain(&self, s: &St, op: &Op, out: &mut Vec<Violation>, check: bool) -> Option<St> {
+        let mut n = s.clone();
+        n.hist.push(op.clone());
+        let rt = guarded(|| apply(&mut n.twin, op));
+        let rl = guarded(|| apply(&mut n.lazy, op));
+        match (&rl, &rt) {
+            (Err(pl), Ok(_)) => {
+                if check {
+                    out.push(self.viol(s, "no-panic-lazy-only", &format!("panic:{}", panic_class(pl)), &[format!("op:{}", op.name())], format!("{} panicked on the lazy book only: {}", op.to_json(), pl)));
+                }
+                return None;
+            }
+            (Ok(_), Err(pt)) => {
+                if check {
+                    out.push(self.viol(s, "same-outcome", &format!("eager-only-panic:{}", panic_class(pt)), &[format!("op:{}", op.name())], format!("{} panicked on the eager twin only: {}", op.to_json(), pt)));
+                }
+                return None;
+            }
+            (Err(_), Err(_)) => {
+                // the operation itself is broken in the same way without laziness: outside this property
+                self.count("op_panics_on_both");
+                return None;
+            }
+            (Ok(a), Ok(b)) => {
+                if a != b {
+                    if check {
+                        out.push(self.viol(s, "same-outcome", "result-differs", &[format!("op:{}", op.name())], format!("{}: lazy returned {:?}, eager twin {:?}", op.to_json(), a, b)));
+                    }
+                    return None;
+                }
+                if a != "ok" {
+                    self.count("op_refused_on_both");
+                    return None;
+                }
+            }
+        }
+        let touched = self.update_model(&mut n, op, &s.mat);
+        let mut vs = vec![];
+        self.observe(&mut n, &mut vs, &touched);
+        if check {
+            for mut v in vs {
+                v.tags.push(format!("op:{}", op.name()));
+                out.push(v);
+            }
+        }
+        Some(n)
+    }
+
+    /// Fresh objects for the history of `s` (no oracle: every step was checked when it was first taken).
+    fn rebuild(&self, s: &St) -> Result<St, String> {
+        let mut cur = self.init_state()?;
+        for op in &s.hist {
+            let mut sink = vec![];
+            let nx = if *op == Op::Save { self.do_save(&cur, &mut sink, false).map(|x| x.0) } else { self.step_plain(&cur, op, &mut sink, false) };
+            cur = nx.ok_or_else(|| format!("replay of {:?} has no successor at {:?}", s.hist, op))?;
+        }
+        Ok(cur)
+    }
+
+    /// Save both books of `cur` IN PLACE (cur must be fresh, i.e. not shared with other nodes); returns the successor.
+    fn do_save(&self, cur: &St, out: &mut Vec<Violation>, check: bool) -> Option<(St, Option<Vec<u8>>)> {
+        let mut n = cur.clone(); // shares the tables with `cur`, which the caller drops
+        n.hist.push(Op::Save);
+        let lb = save_bytes(&n.lazy, false);
+        let tb = save_bytes(&n.twin, false);
+        let lbytes = match lb {
+            Ok(b) => b,
+            Err(e) => {
+                if check {
+                    let both = tb.is_err();
+                    let clause = if both { "save-succeeds-also-eager" } else { "save-succeeds" };
+                    out.push(self.viol(cur, clause, &format!("save-failed:{}", panic_class(&e)), &[], format!("saving the lazy book failed: {} (eager twin: {})", e, if both { "fails too" } else { "saves" })));
+                }
+                return None;
+            }
+        };
+        if check {
+            self.check_saved(cur, &lbytes, tb.as_ref().ok().map(|v| v.as_slice()), out);
+        }
+        n.saves += 1;
+        n.save_sig = fnv(format!("{}:{:032x}", n.save_sig, cur.key).as_bytes());
+        let mut vs = vec![];
+        self.observe(&mut n, &mut vs, &[]);
+        if check {
+            for mut v in vs {
+                v.tags.push("op:save".into());
+                out.push(v);
+            }
+        }
+        Some((n, Some(lbytes)))
+    }
+
+    fn check_saved(&self, cur: &St, lbytes: &[u8], tbytes: Option<&[u8]>, out: &mut Vec<Violation>) {
+        self.count("saves_checked");
+        // (2) independent validator; problems the eager twin's package has as well are reported under their own clause
+        let lprob = with_py(|py| py.validate(lbytes));
+        let tprob: BTreeSet<String> = match tbytes {
+            Some(tb) => with_py(|py| py.validate(tb)).into_iter().map(|(c, p, _)| format!("{}:{}", c, part_family(&p))).collect(),
+            None => BTreeSet::new(),
+        };
+        let mut seen = BTreeSet::new();
+        for (class, part, msg) in lprob {
+            let sym = format!("{}:{}", class, part_family(&part));
+            if seen.insert(sym.clone()) {
+                let clause = if tprob.contains(&sym) { "package-valid-also-eager" } else { "package-valid" };
+                out.push(self.viol(cur, clause, &sym, &[], format!("{}: {}", part, msg)));
+            }
+        }
+        // (3) readable
+        let lre = match load_bytes(lbytes, true) {
+            Ok(b) => b,
+            Err(e) => {
+                let both = tbytes.map(|tb| load_bytes(tb, true).is_err()).unwrap_or(false);
+                let clause = if both { "output-readable-also-eager" } else { "output-readable" };
+                out.push(self.viol(cur, clause, &format!("reload-failed:{}", panic_class(&e)), &[], format!("the package saved from the lazy book cannot be loaded: {}", e)));
+                return;
+            }
+        };
+        // (4) content
+        let tre = match tbytes.map(|tb| load_bytes(tb, true)) {
+            Some(Ok(b)) => b,
+            _ => {
+                self.count("twin_save_or_reload_failed");
+                return;
+            }
+        };
+        let ln = sheet_names(&lre);
+        let tn = sheet_names(&tre);
+        self.obs.borrow_mut().push(fnv(format!("{:?}{:?}", ln, cur.mat).as_bytes()) ^ fnv(&lbytes.len().to_le_bytes()));
+        if ln != tn {
+            let sym = if ln.len() != tn.len() { "sheet-count" } else { "sheet-name-or-order" };
+            out.push(self.viol(cur, "saved-content-equals-eager", sym, &[], format!("reloaded lazy save has sheets {:?}, reloaded eager save {:?}", ln, tn)));
+            return;
+        }
+        let mut seen = BTreeSet::new();
+        for i in 0..ln.len() {
+            let lp = sheet_p(&lre.get_sheet_collection_no_check()[i], Opts::FULL);
+            let tp = sheet_p(&tre.get_sheet_collection_no_check()[i], Opts::FULL);
+            if let Some((path, l, r)) = first_diff(&lp, &tp) {
+                let was_mat = cur.mat.get(i).copied().unwrap_or(true);
+                if !was_mat {
+                    // an unloaded sheet is copied byte for byte: it may keep MORE than the eager write/read round trip
+                    // keeps.  "Same content as in the original" = the twin's in-memory sheet (eager load of the original).
+                    let orig = sheet_p(&cur.twin.get_sheet_collection_no_check()[i], Opts::FULL);
+                    if first_diff(&lp, &orig).is_none() {
+                        self.count("unloaded_sheet_equals_original_better_than_eager_roundtrip");
+                        continue;
+                    }
+                }
+                let status = if was_mat { "materialised-sheet" } else { "unloaded-sheet" };
+                let sym = format!("{}:{}", status, diff_symptom(&path, &l, &r));
+                if seen.insert(sym.clone()) {
+                    out.push(self.viol(cur, "saved-content-equals-eager", &sym, &[], format!("sheet {} ({:?}, {} at save) after reload differs at {}: lazy save {} / eager save {}", i, ln[i], status, path, l, r)));
+                }
+            }
+        }
+        let o = Opts::FULL;
+        let lb = book_level(&lre, o);
+        let tb = book_level(&tre, o);
+        if let Some((path, l, r)) = first_diff(&lb, &tb) {
+            out.push(self.viol(cur, "saved-content-equals-eager", &format!("book:{}", diff_symptom(&path, &l, &r)), &[], format!("workbook level after reload differs at {}: lazy save {} / eager save {}", path, l, r)));
+        }
+    }
+}
+
+fn book_level(b: &Spreadsheet, _o: Opts) -> Value {
+    let mut dn: Vec<Value> = b.get_defined_names().iter().map(defined_name_p).collect();
+    dn.sort_by_key(|v| v.to_string());
+    json!({"active_tab": b.get_workbook_view().get_active_tab(), "defined_names": dn, "protection": b.get_workbook_protection().map(prot_book_p), "has_macros": b.get_has_macros()})
+}
+
+impl<'a> Machine for C11Machine<'a> {
+    type S = St;
+    type Op = Op;
+    fn ops(&self, s: &St, _depth: usize) -> Vec<Op> {
+        ops_for(s.model.len())
+    }
+    fn op_json(&self, op: &Op) -> Value {
+        op.to_json()
+    }
+    fn key(&self, s: &St) -> u128 {
+        s.key
+    }
+    fn step(&self, s: &St, op: &Op, out: &mut Vec<Violation>) -> Option<St> {
+        if *op != Op::Save {
+            return self.step_plain(s, op, out, true);
+        }
+        // save: replay the history on fresh objects (see module comment), check the replay reproduces the node
+        let fresh = match self.rebuild(s) {
+            Ok(f) => f,
+            Err(e) => {
+                out.push(self.viol(s, "harness-replay", "replay-diverged", &[], e));
+                return None;
+            }
+        };
+        if fresh.key != s.key {
+            out.push(self.viol(s, "harness-replay", "replay-key-differs", &[], format!("replaying {:?} on fresh objects gives another state key", s.hist)));
+            return None;
+        }
+        self.do_save(&fresh, out, true).map(|x| x.0)
+    }
+}
+
+// =================================================================================================
+// pool space: one case = (initial file, first operation)
+
+pub struct Hist {
+    id: &'static str,
+    depth: usize,
+    cases: Vec<(usize, usize)>,
+}
+impl Hist {
+    fn new(id: &'static str, depth: usize) -> Hist {
+        let inits = inits_for(id);
+        let mut cases = vec![];
+        for (k, it) in inits.iter().enumerate() {
+            for f in 0..ops_for(it.nsheets).len() {
+                cases.push((k, f));
+            }
+        }
+        Hist { id, depth, cases }
+    }
+}
+impl Space for Hist {
+    fn len(&self) -> u64 {
+        self.cases.len() as u64
+    }
+    fn describe(&self, i: u64) -> Value {
+        let (k, f) = self.cases[i as usize];
+        let it = &inits_for(self.id)[k];
+        json!({"init": it.name, "first_op": ops_for(it.nsheets)[f].to_json(), "depth": self.depth})
+    }
+    fn tags(&self, i: u64) -> Vec<String> {
+        let (k, f) = self.cases[i as usize];
+        let it = &inits_for(self.id)[k];
+        let mut t = it.tags.clone();
+        t.push(format!("op:{}", ops_for(it.nsheets)[f].name()));
+        t
+    }
+    fn run(&self, i: u64, sink: &mut Sink) {
+        let (k, f) = self.cases[i as usize];
+        let it = &inits_for(self.id)[k];
+        let m = C11Machine::new(it, self.depth);
+        let init = match m.init_state() {
+            Ok(s) => s,
+            Err(e) => {
+                sink.violations.push(Violation::new("harness-replay", "init-unreadable", &[], self.describe(i), e));
+                return;
+            }
+        };
+        let st = e2::bfs(&m, init, json!({"init": it.name}), Some(f), self.depth, 2_000_000, sink);
+        for (k, n) in m.counters.borrow().iter() {
+            sink.count(k, *n);
+        }
+        for h in m.obs.borrow().iter() {
+            sink.hashes.push(*h);
+        }
+        if sink.sample_this {
+            sink.samples.push(json!({"case": self.describe(i), "states": st.states, "transitions": st.transitions, "per_depth": st.per_depth}));
+        }
+    }
+}
+
+fn space_cfg(tier: Tier, id: &str) -> Option<Hist> {
+    match (tier, id) {
+        (Tier::Quick, "gen") => Some(Hist::new("gen", 3)),
+        (Tier::Quick, "corpus-small") => Some(Hist::new("corpus-small", 3)),
+        (Tier::Thorough, "gen") => Some(Hist::new("gen", 4)),
+        (Tier::Thorough, "corpus") => Some(Hist::new("corpus", 3)),
+        (Tier::Thorough, "corpus-big") => Some(Hist::new("corpus-big", 2)),
+        _ => None,
+    }
+}
+
+pub fn space(tier: Tier, id: &str) -> Option<Box<dyn Space>> {
+    space_cfg(tier, id).map(|h| Box::new(h) as Box<dyn Space>)
+}
+
+fn replay(tier: Tier, case: &Value) -> Vec<Violation> {
+    let id = case["_space"].as_str().unwrap_or("");
+    let h = match space_cfg(tier, id).or_else(|| space_cfg(Tier::Quick, id)).or_else(|| space_cfg(Tier::Thorough, id)) {
+        Some(h) => h,
+        None => {
+            eprintln!("replay: unknown space {:?}", id);
+            return vec![];
+        }
+    };
+    let name = case["init"]["init"].as_str().unwrap_or("");
+    let it = match inits_for(h.id).iter().find(|i| i.name == name) {
+        Some(i) => i,
+        None => {
+            eprintln!("replay: unknown initial file {:?}", name);
+            return vec![];
+        }
+    };
+    let ipath: Vec<u32> = case["ipath"].as_array().map(|a| a.iter().filter_map(|x| x.as_u64().map(|y| y as u32)).collect()).unwrap_or_default();
+    let m = C11Machine::new(it, h.depth);
+    let init = match m.init_state() {
+        Ok(s) => s,
+        Err(e) => {
+            eprintln!("replay: {}", e);
+            return vec![];
+        }
+    };
+    let n = ipath.len();
+    e2::replay_path(&m, init, &ipath).into_iter().filter(|v| v.case["path"].as_array().map(|p| p.len()) == Some(n)).collect()
+}
+
+fn run(ctx: &Ctx) -> i32 {
+    quiet_panics();
+    let thorough = ctx.tier == Tier::Thorough;
+    let ids: Vec<&'static str> = if thorough { vec!["gen", "corpus", "corpus-big"] } else { vec!["gen", "corpus-small"] };
+    let spaces: Vec<(&'static str, Box<dyn Space>)> = ids.iter().map(|id| (*id, space(ctx.tier, id).unwrap())).collect();
+    let files: BTreeMap<&str, Vec<Value>> = ids.iter().map(|id| (*id, inits_for(id).iter().map(|i| json!({"file": i.name, "sheets": i.nsheets, "bytes": i.bytes.len(), "sheet_parts": i.parts.iter().map(|p| json!([p.part, p.has_rels])).collect::<Vec<_>>() })).collect())).collect();
+    let bounds: Value = ids.iter().map(|id| (id.to_string(), json!(format!("all histories of length <= {} from every initial file of this space", space_cfg(ctx.tier, id).unwrap().depth)))).collect::<serde_json::Map<String, Value>>().into();
+    run_e1(
+        ctx,
+        E1Spec {
+            spaces,
+            cfg: PoolCfg { chunk: 1, case_timeout: std::time::Duration::from_secs(300), keep_per_class: 2, ..Default::default() },
+            level: "model_checking",
+            rule: "breadth-first enumeration of ALL operation histories up to the stated depth from every initial file opened lazily (read_reader(..,false)); one pool case = (file, first operation). A node carries the real lazy Spreadsheet and its eager twin (read_reader(..,true) of the same bytes), both cloned from the parent and stepped with the same operation. After every step: same call outcome, no panic on the lazy book only, equal sheet lists, every materialised sheet of the lazy book has the same FULL projection (dump::sheet_p) as the twin's sheet, accessed sheets are materialised. `save` is an operation evaluated on every expanded state (so every state of depth < D is saved, and histories continue after a save): the history is replayed on fresh objects (clones share the string table), both books are written to memory, the lazy package must be written, pass the independent Python validator, reload eagerly, and its reload must equal the reload of the twin's package sheet by sheet (FULL projection; an unloaded sheet may alternatively equal the eager load of the original exactly) and at workbook level. Two nodes are merged iff sheet names, per-sheet materialised flag, the twin's FULL projection of every sheet (and the lazy one where it differs), the history-shape model (origin of every sheet, accessed/renamed-while-unloaded/edited flags, removed originals, number and positions of earlier saves) are equal. states = distinct keys; distinct_nontrivial additionally counts distinct (sheet list, materialised set, package size) of checked saves".into(),
+            alphabets: json!({
+                "operations(n sheets)": "read_sheet(i), read_sheet_collection, get_sheet_mut(i)+set text A2, get_sheet_by_name_mut(name i)+set styled number C3, set_sheet_name(i, fresh), insert_new_row(name i,1,1), new_sheet(fresh)+2 cells (n<6), remove_sheet(i) (n>=2), save  = 6n+3 operations",
+                "generated_files": GEN.iter().map(|g| json!({"name": g.0, "sheet_features": g.1.iter().map(|m| (0..8).filter(|k| m & (1 << k) != 0).map(|k| FEATURE_NAMES[k]).collect::<Vec<_>>()).collect::<Vec<_>>(), "defined_names": g.2})).collect::<Vec<_>>(),
+                "initial_files": files,
+            }),
+            bounds,
+            exhaustive: true,
+            caps_hit: vec![],
+            assumptions: vec![
+                "content oracle = the library's own eager reader on the same bytes executing the same history (the property is an equivalence between the two loading modes); validity oracle = /verif/pyref/xlsx_ref.py".into(),
+                "whether a sheet is materialised is observed through the public get_sheet(&i), which is documented to assert on an unloaded sheet; get_sheet/get_sheet_collection are therefore not operations of the alphabet".into(),
+                "validator problems and save/reload failures that the eager twin's package shows as well are reported under separate clauses (*-also-eager): they are not caused by lazy loading".into(),
+                "histories in which an operation panics or is refused on both books are not extended (counted)".into(),
+                "standard writer only (write_writer); the light writer differs in compression only".into(),
+            ],
+            min_distinct: 200,
+        },
+    )
 }
